@@ -75,6 +75,9 @@ _WCTX = {}
 def _winit(modname, bins, tier, seed, mainpid):
     signal.signal(signal.SIGINT, signal.SIG_IGN)
     os.environ["BWVERIF_MAINPID"] = str(mainpid)
+    # a forked worker must not inherit the parent's scratch directory (workers would collide on names)
+    run._SCRATCH_ROOT = None
+    run._COUNTER[0] = 0
     _WCTX["mod"] = importlib.import_module(modname)
     _WCTX["ctx"] = Ctx(bins, tier, seed)
 
@@ -159,7 +162,7 @@ def main(argv=None):
     build_notes = []
     for fl in flavours:
         try:
-            bins[fl] = build.build(fl)
+            bins[fl] = build.build(fl, copy_to=os.path.join(run.scratch_top(), "bin"))
         except build.BuildError as e:
             if fl in optional:
                 build_notes.append("build %s failed -> its shard is inconclusive: %s" % (fl, str(e)[-300:]))
